@@ -193,12 +193,34 @@ theorem keepsMand (F : Facts15) (fuel : Nat) : KeepsMand F fuel := by
 
 theorem keeps_subclassOp (F : Facts15) (hF : F.varRule = .ownPerClass) (hX : F.varRuleX = .ownPerClass)
     (base : Option Nat) (name : String) (ns : Option String) (fields : List (String × Nat)) (perm : List Nat)
-    (attrs : Option Kw) :
-    Keeps Tr (subclassOp F base name ns fields perm attrs) TrQ := by
+    (attrs : Option Kw) (mixins : List Nat) (asMixin : Bool) :
+    Keeps Tr (subclassOp F base name ns fields perm attrs mixins asMixin) TrQ := by
   unfold subclassOp
   refine Keeps.bind (Keeps.getCls Tr _) (fun bc => ?_)
   refine Keeps.bind (Keeps.liftExcept _ _) (fun ext => ?_)
+  refine Keeps.bind (Keeps.getHeap _) (fun h0 => ?_)
+  refine Keeps.bind (Keeps.guardNone _ _) (fun _ => ?_)
   exact Keeps.allocBoth_declared _ _ _ (by cases attrs <;> simp [declaredVariants, hF, hX]) (fun _ => ⟨rfl, rfl, rfl⟩)
+
+theorem keeps_protMerge (F : Facts15) (prot : Option Nat) (kw : Kw) (P : Heap → Prop)
+    (hP : ∀ h h' : Heap, h'.cls = h.cls → P h → P h') : Keeps P (protMerge F prot kw) (fun _ h => P h) := by
+  unfold protMerge
+  split
+  · exact (Keeps.pure _ _).weaken (fun _ p => p) (fun _ _ q => q.1)
+  · refine Keeps.bind (Keeps.getHeap P) (fun h0 => ?_)
+    split
+    · exact Keeps.fail _ _ _
+    · split
+      · exact (Keeps.pure _ _).weaken (fun _ p => p) (fun _ _ q => q.1.1)
+      · refine Keeps.bind (Q := fun _ h => P h) ?_ (fun _ => (Keeps.pure _ _).weaken (fun _ p => p) (fun _ _ q => q.1))
+        unfold whenM
+        split
+        · intro h ih p
+          exact ⟨ih, fun h' u he => by
+            simp only [SpyneModel.Derive.updProt] at he
+            cases he
+            exact hP h _ rfl p.1⟩
+        · exact (Keeps.pure _ _).weaken (fun _ p => p) (fun _ _ q => q.1.1)
 
 theorem keeps_xmlattrOp (F : Facts15) (src : Nat) : Keeps Tr (xmlattrOp F src) TrQ := by
   unfold xmlattrOp
@@ -275,15 +297,17 @@ theorem keeps_evolve (impl : Nat → M Unit) (hf : ∀ v, Keeps Tr (impl v) TrQ)
 theorem keeps_opProg (F : Facts15) (hF : F.varRule = .ownPerClass) (hX : F.varRuleX = .ownPerClass) (fuel : Nat) (op : Op) :
     Keeps Tr (opProg F fuel op) TrQ := by
   cases op with
-  | customize src kw ca caa =>
+  | customize src kw ca caa prot =>
     simp only [opProg]
     refine Keeps.bind (Keeps.getCls Tr _) (fun sc => ?_)
+    refine Keeps.bind (keeps_protMerge F prot kw _ (fun _ _ _ p => p)).anyPre (fun kwE => ?_)
     split
     · exact (Keeps.map _ (keeps_custComplex _ _ _ _ _ _)).anyPre
     · exact (Keeps.map _ (keeps_customizeAny _ _ _ _)).anyPre
   | array src member kw flat iter => exact Keeps.map _ (keeps_arrayOp _ _ _ _ _ _ _)
   | mandatory src => exact Keeps.map _ ((keepsMand F fuel).mandatory src)
-  | subclass base name ns fields perm attrs => exact Keeps.map _ (keeps_subclassOp F hF hX _ _ _ _ _ _)
+  | subclass base name ns fields perm attrs mixins asMixin =>
+    exact Keeps.map _ (keeps_subclassOp F hF hX _ _ _ _ _ _ _ _)
   | append c name t =>
     simp only [opProg]
     refine Keeps.bind (Keeps.getCls Tr _) (fun cl => ?_)
